@@ -55,6 +55,9 @@ type target struct {
 	Prop     string // property whose generated file (Generated/Code<Prop>.lean) holds the definition
 	StrLit   string // wrapper applied to string literals ("" = Lean String)
 	Partial  bool   // the function may panic / uses fuelled loops: the result is an Option
+	Effects  map[string]string // statement-level calls with an effect: callee text -> Lean function `f fx args..` : the new `fx`
+	Fall     string            // Lean term for falling off the end / a bare `return` (default `()`, or the receiver)
+	Imports  []string          // extra imports of the generated file of this property
 }
 
 type tr struct {
@@ -122,6 +125,10 @@ func (x *tr) ident(name string) string {
 // ---- expressions
 
 func (x *tr) expr(e ast.Expr) string {
+	// escape hatch: the whole expression text is in the target's symbol table
+	if s, ok := x.t.Syms[x.src(e)]; ok {
+		return s
+	}
 	switch v := e.(type) {
 	case *ast.ParenExpr:
 		return "(" + x.expr(v.X) + ")"
@@ -300,6 +307,12 @@ func (x *tr) assigned(stmts []ast.Stmt) []string {
 			}
 		case *ast.IncDecStmt:
 			note(v.X)
+		case *ast.ExprStmt:
+			if c, ok := v.X.(*ast.CallExpr); ok {
+				if _, ok := x.t.Effects[x.src(c.Fun)]; ok {
+					set["fx"] = true
+				}
+			}
 		case *ast.RangeStmt:
 			if v.Tok == token.DEFINE {
 				for _, e := range []ast.Expr{v.Key, v.Value} {
@@ -379,6 +392,13 @@ func (x *tr) stmts(list []ast.Stmt, fall string, ind string) string {
 			if x.skipped(c) {
 				return next()
 			}
+			if fn, ok := x.t.Effects[x.src(c.Fun)]; ok {
+				args := []string{"fx"}
+				for _, a := range c.Args {
+					args = append(args, x.expr(a))
+				}
+				return "let fx := (" + fn + " " + strings.Join(args, " ") + ")\n" + ind + next()
+			}
 		}
 		return x.errf("statement %s", x.src(v))
 	case *ast.DeclStmt:
@@ -439,6 +459,9 @@ func (x *tr) stmts(list []ast.Stmt, fall string, ind string) string {
 			parts[i] = x.expr(r)
 		}
 		val := "()"
+		if len(parts) == 0 && x.t.Fall != "" {
+			val = x.t.Fall
+		}
 		if len(parts) == 1 {
 			val = parts[0]
 		} else if len(parts) > 1 {
@@ -648,7 +671,6 @@ func (x *tr) rangeLoop(v *ast.RangeStmt, rest []ast.Stmt, fall, ind string) stri
 	}
 	return "match GoLib.forRange " + x.expr(v.X) + " " + st + " (fun " + elem + " " + lamPat(st) + " =>\n" + ind2 + body + ") with\n" +
 		ind + "| .ret r' => " + retArm + "\n" +
-		ind + "| .stuck => " + x.stuckTerm() + "\n" +
 		ind + "| .done " + lamPat(st) + " =>\n" + ind + "  " + after
 }
 
@@ -778,6 +800,9 @@ func translate(t *target) (string, []string) {
 	if t.RetState {
 		fall = recvVar
 	}
+	if t.Fall != "" {
+		fall = t.Fall
+	}
 	if t.Partial {
 		fall = "(some " + fall + ")"
 	}
@@ -810,7 +835,11 @@ func main() {
 			sb = &strings.Builder{}
 			byProp[t.Prop] = sb
 			order = append(order, t.Prop)
-			sb.WriteString("/- GENERATED by /verif/harness/cmd/translate from /repo — do not edit. -/\nimport HapVerif.GoLib\nimport HapVerif.Generated.Facts\nnamespace HapVerif.Code" + t.Prop + "\nopen HapVerif\nset_option linter.unusedVariables false\n\n")
+			sb.WriteString("/- GENERATED by /verif/harness/cmd/translate from /repo — do not edit. -/\nimport HapVerif.GoLib\nimport HapVerif.Generated.Facts\n")
+			for _, im := range t.Imports {
+				sb.WriteString("import " + im + "\n")
+			}
+			sb.WriteString("namespace HapVerif.Code" + t.Prop + "\nopen HapVerif\nset_option linter.unusedVariables false\n\n")
 		}
 		out, errs := translate(t)
 		sb.WriteString(out)
